@@ -9,9 +9,10 @@ EXTENDS Ast, TLC, Json, IOUtils
 CONSTANT MaxLen
 
 OV == {"x", "y", "z"}
-Ops == [op : {"new", "inc", "add", "total", "twice", "readn", "writen", "opn", "pushitems", "bumpvia", "setb", "inlist", "unwrap_reassign"}, v : OV]
-       \cup [op : {"alias", "fork", "me", "is", "adopt", "read_op_inc"}, v : OV, w : OV]
-       \cup [op : {"pair_bump_a", "pair_read_b", "pair_b_inc", "outside", "finc", "ftotal", "fnew"}]
+Ops == [op : {"new", "inc", "add", "total", "twice", "readn", "writen", "opn", "pushitems", "bumpvia", "setb", "inlist", "unwrap_reassign",
+              "label", "tagop"}, v : OV]
+       \cup [op : {"alias", "fork", "me", "is", "adopt", "read_op_inc", "share"}, v : OV, w : OV]
+       \cup [op : {"pair_bump_a", "pair_read_b", "pair_b_inc", "outside", "finc", "ftotal", "fnew", "ffork"}]
 
 VARIABLE hist
 Init == hist = <<>>
@@ -24,8 +25,8 @@ SetSelf(n, e) == Assign(Fld(Self, n), "=", e)
 
 Counter ==
     [k |-> "class", n |-> "Counter", export |-> FALSE,
-     fields |-> <<Field("n", "int"), Field("items", "[int...]")>>,
-     ctor |-> <<[ps |-> <<P("start", "int")>>, b |-> <<SetSelf("n", V("start")), SetSelf("items", List(<<>>)),
+     fields |-> <<Field("n", "int"), Field("items", "[int...]"), Field("tag", "str")>>,
+     ctor |-> <<[ps |-> <<P("start", "int")>>, b |-> <<SetSelf("n", V("start")), SetSelf("items", List(<<>>)), SetSelf("tag", S("t")),
                                                       Modify("made", Bin("+", V("made"), I(1)))>>]>>,
      methods |-> <<Method("inc", <<>>, "int", <<Assign(Fld(Self, "n"), "+", I(1)), Ret(SelfF("n"))>>),
                    Method("add", <<P("v", "int")>>, "", <<ExprS(MCall(SelfF("items"), "push", <<V("v")>>))>>),
@@ -36,6 +37,10 @@ Counter ==
                    Method("adopt", <<P("other", "Self")>>, "int", <<SetSelf("n", Bin("+", SelfF("n"), Fld(V("other"), "n"))),
                                                                      Assign(Fld(V("other"), "n"), "=", I(0)), Ret(SelfF("n"))>>),
                    Method("outside", <<>>, "int", <<Ret(Bin("+", V("made"), SelfF("n")))>>),
+                   \* a non-commutative op-assignment on a field, inside a method
+                   Method("label", <<P("s", "str")>>, "str", <<Assign(Fld(Self, "tag"), "+", V("s")), Ret(SelfF("tag"))>>),
+                   \* share the other object's list (the two lists may be equal in content at that moment)
+                   Method("share", <<P("other", "Self")>>, "", <<SetSelf("items", Fld(V("other"), "items"))>>),
                    \* a field read whose right neighbour writes the field: left to right, the read comes first
                    Method("bumpsum", <<>>, "int", <<Ret(Bin("+", SelfF("n"), MCall(Self, "inc", <<>>)))>>)>>]
 (* a second module with its own, different class of the same name *)
@@ -44,7 +49,9 @@ LibCounter ==
      fields |-> <<Field("n", "int")>>,
      ctor |-> <<[ps |-> <<P("start", "int")>>, b |-> <<SetSelf("n", V("start"))>>]>>,
      methods |-> <<Method("inc", <<>>, "int", <<SetSelf("n", Bin("*", SelfF("n"), I(2))), Ret(SelfF("n"))>>),
-                   Method("total", <<>>, "int", <<Ret(Bin("-", SelfF("n"), I(1)))>>)>>]
+                   Method("total", <<>>, "int", <<Ret(Bin("-", SelfF("n"), I(1)))>>),
+                   \* `Self(..)` inside a method of an imported class is that class, whatever the importer calls `Counter`
+                   Method("fork", <<>>, "Self", <<Ret(New("Self", <<Bin("+", SelfF("n"), I(100))>>))>>)>>]
 LibBody == <<LibCounter,
              [k |-> "let", n |-> "mk", ty |-> "fn(int) -> Counter", mod |-> FALSE, const |-> FALSE, export |-> TRUE,
               e |-> Fn("mk", <<P("s", "int")>>, "Counter", <<Ret(New("Counter", <<V("s")>>))>>)]>>
@@ -63,7 +70,7 @@ Prologue == <<[k |-> "import", form |-> "names", path |-> "lib", names |-> <<"mk
               Let("p", New("Pair", <<V("x")>>)),
               LetT("ls", "[Counter...]", List(<<V("y")>>))>>
 
-ObsOne(v) == <<Print(Fld(V(v), "n")), Print(Fld(V(v), "items"))>>
+ObsOne(v) == <<Print(Fld(V(v), "n")), Print(Fld(V(v), "items")), Print(Fld(V(v), "tag"))>>
 Observe == ObsOne("x") \o ObsOne("y") \o ObsOne("z")
            \o <<Print(Bin("is", V("x"), V("y"))), Print(Bin("is", V("x"), V("z"))), Print(Bin("is", V("y"), V("z"))),
                 Print(Fld(Fld(V("p"), "a"), "n")), Print(MCall(V("p"), "has_b", <<>>)),
@@ -99,6 +106,10 @@ Stmts(o, k) ==
       [] o.op = "pair_b_inc" -> <<If(MCall(V("p"), "has_b", <<>>), <<Let("pb", Get(Fld(V("p"), "b"))), Print(MCall(V("pb"), "inc", <<>>))>>)>>
       [] o.op = "outside" -> <<Print(MCall(V("x"), "outside", <<>>))>>
       [] o.op = "read_op_inc" -> <<Print(Bin("-", Fld(V(o.v), "n"), MCall(V(o.w), "inc", <<>>))), Print(MCall(V(o.v), "bumpsum", <<>>))>>
+      [] o.op = "label" -> <<Print(MCall(V(o.v), "label", <<S("L" \o ToString(k))>>))>>
+      [] o.op = "tagop" -> <<Assign(Fld(V(o.v), "tag"), "+", S("o" \o ToString(k)))>>
+      [] o.op = "share" -> <<ExprS(MCall(V(o.v), "share", <<V(o.w)>>)), Print(Bin("is", Fld(V(o.v), "items"), Fld(V(o.w), "items")))>>
+      [] o.op = "ffork" -> <<Let("f", MCall(V("f"), "fork", <<>>)), Print(MCall(V("f"), "inc", <<>>)), Print(MCall(V("f"), "total", <<>>))>>
       [] o.op = "finc" -> <<Print(MCall(V("f"), "inc", <<>>))>>
       [] o.op = "ftotal" -> <<Print(MCall(V("f"), "total", <<>>))>>
       [] o.op = "fnew" -> <<Let("f", Call(V("mk"), <<I(4 + k)>>)), Print(MCall(V("f"), "inc", <<>>))>>
